@@ -2580,6 +2580,7 @@ L360:
 
     ++ *(stop->nevals_p);
     f = calfun(*n, &x[1], calfun_data);
+    if (nlopt_stop_forced(stop)) { rc = NLOPT_FORCED_STOP; goto L720; }
     if (ntrits == -1) {
 	fsave = f;
 	rc = NLOPT_XTOL_REACHED;
